@@ -32,6 +32,7 @@ fn main() {
         "c02-record" => c02::record(n(2) as u64, n(3), n(4), &a[5]),
         "c04-replay" => c04::replay(&a[2], &a[3], &a[4]),
         "c04-record" => c04::record(n(2) as u64, n(3), &a[4]),
+        "c04-chain" => c04::chain(&a[2], &a[3], &a[4], &a[5]),
         "dur-record" => dur::record(n(2) as u64, n(3), &a[4], &a[5]),
         "dur-replay" => dur::replay(&a[2], &a[3]),
         "vset-record" => vset::record(n(2) as u64, n(3), &a[4], &a[5..]),
